@@ -9,16 +9,20 @@ T2 == T1 \cup {Neg(a) : a \in T1} \cup {Bin(op, a, b) : op \in Ops, a \in T1, b 
 T3 == IF Thorough THEN {Bin(op, a, b) : op \in Ops, a \in T2, b \in T2} \cup {Neg(a) : a \in T2}
       ELSE {Bin(op, a, b) : op \in Ops, a \in T2, b \in T1} \cup {Bin(op, a, b) : op \in Ops, a \in T1, b \in T2} \cup {Neg(a) : a \in T2}
 Trees == {e \in T2 \cup T3 : Val(e)[1]}
-DVal(e, v) == IF ConstExp(e) /\ Val(D(e, v))[1] THEN Val(D(e, v))[2] ELSE <<0, 0>>     \* <<0,0>> = not judged exactly
+DVal(e, v) == IF ExpIndep(e, v) /\ Val(D(e, v))[1] THEN Val(D(e, v))[2] ELSE <<0, 0>>     \* <<0,0>> = not judged exactly
 Arith == {[kind |-> "arith", fmin |-> PrMin(e, ""), fws |-> PrMin(e, " "), ffull |-> PrFull(e),
            den |-> Val(e)[2][2], ddx |-> DVal(e, "x")[2], ddy |-> DVal(e, "y")[2], tree |-> e] : e \in Trees}
 \* documented function names (docs/web/math.md) with arguments chosen in and out of their domains
 Unary == {"exp", "exp2", "expm1", "sqrt", "cbrt", "ln", "log", "log10", "log2", "log1p", "cosh", "sinh", "tanh", "acosh", "asinh",
           "atanh", "abs", "cos", "sin", "tan", "acos", "asin", "atan", "erf", "erfc", "tgamma", "lgamma", "H"}
 Binary == {"max", "min", "hypot", "atan2"}
+\* compositions (chain rule through two functions)
+Outer == {"exp", "sin", "cos", "tanh", "atan", "sqrt", "log1p", "cbrt", "erf", "asinh"}
+Inner == {"exp", "cosh", "sin", "abs", "atan"}
 Args == {"x/4", "x", "-y/4", "x*y/8"}                    \* 1/2, 2, -3/4, 3/4
 Fn == {[kind |-> "fn", f |-> f, arg |-> a, formula |-> "1+" \o f \o "(" \o a \o ")*2"] : f \in Unary, a \in Args}
       \cup {[kind |-> "fn2", f |-> f, arg |-> a, arg2 |-> b, formula |-> f \o "(" \o a \o "," \o b \o ")-1"] : f \in Binary, a \in Args, b \in Args}
+      \cup {[kind |-> "fnn", f |-> f, g |-> g, arg |-> a, formula |-> f \o "(" \o g \o "(" \o a \o "))+" \o a] : f \in Outer, g \in Inner, a \in Args}
       \cup {[kind |-> "power", n |-> n, arg |-> a, formula |-> "power<" \o ToString(n) \o ">(" \o a \o ")"] : n \in {1, 2, 3, 16}, a \in Args}
 \* token strings that no reading of the documented language derives: the evaluator must throw
 Bad == {"", "()", "(", ")", "1+", "x*", "*x", "/2", "**2", "1*/2", "1+*2", "x y", "1 2", "(1+2", "1+2)", "((x)", "x)(", "sin(", "sin()",
